@@ -78,6 +78,14 @@ fn spec_for(prop: &str, _tier: Tier) -> Option<Spec> {
 		.require("continuation_checks", 20)
 		.require("recovered_proper_prefix", 3)
 		.budget(40, 400),
+		"C14" => Spec::new(
+			"C14",
+			"exploration",
+			"Third phase of C14 ('kill -9 under load', the workload of the threaded half of C02): a child process commits the deterministic sequence T1, T2, ... against LIVE workers and is killed with SIGKILL at a random moment (half of the rounds: a second process is killed in the middle of the recovery); after the parent's recovery, a continuation and a clean restart the independent structural checker (pvfsck) validates the files of the hash and the btree column against the recovered prefix state plus the continuation. evaluations = prefix checks + values compared by the structural checker; distinct_nontrivial = distinct (always_flush, index growth, kills during recovery, everything / proper prefix recovered) classes.",
+		)
+		.require("kills_under_load", 40)
+		.require("fsck_after_recovery", 20)
+		.budget(30, 300),
 		"C12" => Spec::new(
 			"C12",
 			"exploration",
@@ -149,7 +157,7 @@ fn shard(ctx: &Ctx, rep: &mut Report) {
 
 fn run_one(ctx: &Ctx, rep: &mut Report, case_seed: u64, variant: u64) {
 	match ctx.prop.as_str() {
-		"C02" => c02::run_case(ctx, rep, case_seed, variant),
+		"C02" | "C14" => c02::run_case(ctx, rep, case_seed, variant),
 		"C05" => c05::run_case(ctx, rep, case_seed, variant),
 		"C11" => c11::run_case(ctx, rep, case_seed, variant),
 		"C12" => c12::run_case(ctx, rep, case_seed, variant),
